@@ -228,6 +228,16 @@ class SeqGen:
                     info = {"SR": SR, "counts": [a, w1 - a, c, w2 - w1 - c, N - w2], "N": N}
                     if markers:
                         bops += self.g.markers(bid, info)
+                elif waits and N >= 8 and (N + len(ops)) % 11 == 3:
+                    # the blueprint STARTS with a waituntil: waituntil, ramp (whole-sample boundaries)
+                    w = r.randint(2, N - 2)
+                    bops = [{"op": "bp.new", "id": bid},
+                            {"op": "bp.insert", "id": bid, "pos": -1, "fn": "waituntil", "args": [enc(w / SR)], "dur": None, "name": None},
+                            {"op": "bp.insert", "id": bid, "pos": -1, "fn": "ramp", "args": [enc(dyadic(r)), enc(dyadic(r))], "dur": enc((N - w) / SR), "name": None},
+                            {"op": "bp.setSR", "id": bid, "SR": enc(SR)}]
+                    info = {"SR": SR, "counts": [w, N - w], "N": N}
+                    if markers:
+                        bops += self.g.markers(bid, info)
                 elif waits and r.random() < waits and N >= 8:
                     # replace by: ramp, waituntil, ramp with whole-sample boundaries
                     a = r.randint(2, N // 2 - 2) if N // 2 - 2 >= 2 else 2
@@ -251,8 +261,10 @@ class SeqGen:
                     ops.append({"op": "el.addArray", "id": eid, "ch": ch, "wfm": [q(0.125)] * N, "SR": enc(SR), "kw": []})
                 ops.append({"op": "el.addBP", "id": eid, "ch": ch, "bp": bid})
             if r.random() < flags_p:
-                ops.append({"op": "el.addFlags", "id": eid, "ch": ch,
-                            "flags": [enc(r.choice([0, 1, 2, 3, 4, "", "H", "L", "T", "P"])) for _ in range(4)]})
+                fl = [enc(r.choice([0, 1, 2, 3, 4, "", "H", "L", "T", "P"])) for _ in range(4)]
+                if (N + len(ops)) % 4 == 1:
+                    fl = [enc(x) for x in r.choice([[0, 0, 0, 0], ["", "", "", ""], [0, "", 0, ""]])]     # "no change" set explicitly is still set
+                ops.append({"op": "el.addFlags", "id": eid, "ch": ch, "flags": fl})
         return ops
 
     def sequence(self, sid, npos=(1, 3), nch=(1, 3), SR=None, N=None, raw_p=0.3, kinds=("ramp",), flags_p=0.0,
